@@ -271,3 +271,107 @@ func H13_again() {
 	}
 	sv.Reach("invoked-three-times")
 }
+
+// H13_recover: a failing invocation leaves the Callable as good as new. One
+// compiled closure is invoked on a good environment, on one that makes a
+// partial operation fail, and on the good one again: first and third results
+// are the same value, the second is an error.
+func H13_recover() {
+	e := exprWith(sv.Choice("backend", hx.NBackends))
+	srcs := []string{"xs[i] + a", "m[k] + a", "a % i", "match(k, k) ? a : a + 1", "[xs[i], a][0] * 2"}
+	k := sv.Choice("prog", len(srcs))
+	lt, mt := types.List(types.Num), types.Map(types.Str, types.Num)
+	tenv := types.NewEnv()
+	tenv.Put("xs", lt)
+	tenv.Put("m", mt)
+	tenv.Put("i", types.Num)
+	tenv.Put("k", types.Str)
+	tenv.Put("a", types.Num)
+	c, err := e.Compile(srcs[k], tenv)
+	sv.Assert("compiles", err == nil)
+	if err != nil {
+		return
+	}
+	a := sv.Float64("a")
+	xs := val.List(lt.List(), 2).List()
+	xs.V[0], xs.V[1] = val.Num(3), val.Num(4)
+	m := val.Map(mt.Map()).Map()
+	m.Put(val.Str("k"), val.Num(5))
+	mk := func(good bool) *val.Env {
+		venv := val.NewEnv()
+		venv.Put("xs", xs.Vl())
+		venv.Put("m", m.Vl())
+		venv.Put("a", val.Num(a))
+		if good {
+			venv.Put("i", val.Num(1))
+			venv.Put("k", val.Str("k"))
+		} else {
+			venv.Put("i", []*val.Val{val.Num(7), val.Num(7), val.Num(0), val.Num(1), val.Num(-1)}[k])
+			venv.Put("k", []*val.Val{val.Str("k"), val.Str("zz"), val.Str("k"), val.Str("("), val.Str("k")}[k])
+		}
+		return venv
+	}
+	var rs [3]*val.Val
+	var errs [3]error
+	for step, good := range []bool{true, false, true} {
+		st := step
+		g := good
+		cls := sv.Outcome(func() { rs[st], errs[st] = c(mk(g)) })
+		sv.Assert("callable-does-not-panic", cls == "ok")
+		if cls != "ok" {
+			return
+		}
+	}
+	sv.Assert("good-environment-evaluates", errs[0] == nil && rs[0] != nil)
+	sv.Assert("failing-environment-reports-an-error", errs[1] != nil)
+	sv.Assert("good-environment-evaluates-again-after-a-failure", errs[2] == nil && rs[2] != nil)
+	if errs[0] == nil && errs[2] == nil && rs[0] != nil && rs[2] != nil {
+		sv.Assert("same-result-before-and-after-the-failure", hx.RefSameVal(rs[0], rs[2]))
+	}
+	sv.Reach("three-invocations")
+}
+
+type c13Ext struct {
+	N   float64     `yae:"n"`
+	Ext interface{} `yae:"ext"`
+	L   []interface{} `yae:"l"`
+}
+
+// H13_host: what an evaluation returns depends on the environment it is
+// given, not on environments of the same Go type converted earlier in the
+// process (a host struct with interface-typed parts has a type of its own
+// for every value).
+func H13_host() {
+	mk := func(kind int, name string) (c13Ext, string) {
+		n := sv.Float64(name + ".n")
+		switch kind {
+		case 0:
+			return c13Ext{N: n, Ext: 41, L: []interface{}{1, 2}}, "41|2"
+		case 1:
+			return c13Ext{N: n, Ext: "x", L: []interface{}{"p"}}, "x|1"
+		default:
+			return c13Ext{N: n, Ext: true, L: []interface{}{false, true, true}}, "true|3"
+		}
+	}
+	api := sv.Choice("api", 2)
+	for step := 0; step < 2; step++ {
+		kind := sv.Choice("env"+hx.Itoa(step), 3)
+		h, want := mk(kind, "env"+hx.Itoa(step))
+		var r *val.Val
+		var err error
+		cls := sv.Outcome(func() {
+			if api == 0 {
+				r, err = Eval("string(ext) + \"|\" + string(len(l))", h)
+			} else {
+				var c Callable
+				c, err = NewExpr().Compile("string(ext) + \"|\" + string(len(l))", h)
+				if err == nil {
+					r, err = c(&h)
+				}
+			}
+		})
+		sv.Assert("evaluation-does-not-panic", cls == "ok")
+		sv.Assert("every-environment-is-judged-on-its-own", cls == "ok" && err == nil && r != nil && r.Type == types.Str && r.Str().V == want)
+	}
+	sv.Reach("two-evaluations")
+}
